@@ -558,6 +558,14 @@ def runSection (r : Report) (sec : Section) : Report := Id.run do
       r := r.addCover (opKind op)
       if via.any (· > 0) then r := r.addCover "op-through-a-later-instance"
       if l.op.contains "nc=1" then r := r.addCover s!"context-free-wrapper-{opKind op}"
+      -- the caller's context (round 5b): the model has no such input — nothing an entry point leaves behind may depend on it
+      match kv? l.op "ctx" with
+      | some "after" => r := r.addCover s!"ctx-cancelled-after-return-{opKind op}"
+      | some "dl0" => r := r.addCover s!"ctx-deadline-before-first-retry-{opKind op}"
+      | some "bg" | none => pure ()
+      | some k => r := r.addCover (if k = "pre" then s!"ctx-cancelled-before-call-{opKind op}" else s!"ctx-deadline-between-or-after-retries-{opKind op}")
+      if (kv? l.op "ctx").isSome && (kv? l.op "ctx") ≠ some "bg" && (l.obs.any fun t => t.startsWith "cmds=" && (t.splitOn "del/").length > 1 && (t.splitOn ":fail").length > 1) then
+        r := r.addCover "failed-del-under-a-request-scoped-context"
       let dbf := match op with | .take _ _ _ d => d | _ => false
       let multi := Spec.classesOf kinds via > 1
       let impl := joinSp l.obs
